@@ -226,7 +226,7 @@ def s_cjk():
         5: {b"Type": Name(b"Font"), b"Subtype": Name(b"Type0"), b"BaseFont": Name(b"Ryumin-Light"), b"Encoding": Name(b"EUC-H"), b"DescendantFonts": [Ref(6, 0)]},
         6: {b"Type": Name(b"Font"), b"Subtype": Name(b"CIDFontType0"), b"BaseFont": Name(b"Ryumin-Light"), b"CIDSystemInfo": {b"Registry": Str(b"Adobe"), b"Ordering": Str(b"Japan1"), b"Supplement": 2}, b"FontDescriptor": Ref(7, 0), b"DW": 1000},
         7: {b"Type": Name(b"FontDescriptor"), b"FontName": Name(b"Ryumin-Light"), b"Flags": 6, b"FontBBox": [0, -200, 1000, 900], b"ItalicAngle": 0, b"Ascent": 880, b"Descent": -120, b"CapHeight": 700, b"StemV": 80},
-        8: {b"Type": Name(b"Font"), b"Subtype": Name(b"Type0"), b"BaseFont": Name(b"Vert"), b"Encoding": Name(b"Identity-V"), b"DescendantFonts": [{b"Type": Name(b"Font"), b"Subtype": Name(b"CIDFontType2"), b"BaseFont": Name(b"Vert"), b"CIDSystemInfo": {b"Registry": Str(b"Adobe"), b"Ordering": Str(b"Identity"), b"Supplement": 0}, b"FontDescriptor": Ref(7, 0), b"DW2": [880, -1000], b"W2": [65, [-900, 500, 880]]}]},
+        8: {b"Type": Name(b"Font"), b"Subtype": Name(b"Type0"), b"BaseFont": Name(b"Vert"), b"Encoding": Name(b"Identity-V"), b"DescendantFonts": [{b"Type": Name(b"Font"), b"Subtype": Name(b"CIDFontType2"), b"BaseFont": Name(b"Vert"), b"CIDSystemInfo": {b"Registry": Str(b"Adobe"), b"Ordering": Str(b"Identity"), b"Supplement": 0}, b"FontDescriptor": Ref(7, 0), b"DW2": [880, -1000], b"W2": [65, [-900, 500, 880], 70, 72, -800, 450, 900]}]},
     }
     roles = {1: "Catalog", 2: "Pages", 3: "Page", 4: "ContentStream", 5: "Font:Type0", 6: "Font:CID", 7: "FontDescriptor", 8: "Font:Type0V"}
     return Seed("cjk", o, roles)
